@@ -1,7 +1,57 @@
-"""C16 — prefilters never skip a match; complete prefilters are exact."""
+"""C16 — prefilters never skip a match; complete prefilters are exact.
+
+Go level (gosymx): every prefilter implementation through its public constructor vs the
+naive definition. Assembly level (asmsym): the slim Teddy SSSE3/AVX2 candidate kernels vs
+the scalar candidate definition, for EVERY mask table (all 264 table bytes symbolic) and
+every haystack length 0..Lmax, with every load proved in bounds.
+"""
+import json
+import os
+import subprocess
+import tempfile
+
 from props.common import mk, bounds
 
-ASSUMPTIONS = ["literal-set corpus L16; CPU vector flags are false in the symbolic run (pure-Go paths of Teddy etc.); the assembly kernels are outside this check (C18 covers the simd primitives that are encodable)"]
+VERIF = os.path.dirname(os.path.dirname(os.path.abspath(__file__)))
+
+
+def extra_check(tier, only=None):
+    lmax = 24 if tier == "quick" else 40
+    with tempfile.NamedTemporaryFile(suffix=".json", delete=False) as tf:
+        out = tf.name
+    cmd = ["python3-vt", os.path.join(VERIF, "asmsym", "kernels.py"), "--set", "teddy", "--lmax", str(lmax), "--json", out]
+    if only:
+        cmd += ["--only", only]
+    p = subprocess.run(cmd, capture_output=True, text=True)
+    vios, kernels = [], []
+    tot = {"paths": 0, "queries": 0, "loads": 0, "solver_s": 0.0}
+    try:
+        res = json.load(open(out))
+    except Exception:
+        res = []
+        vios.append({"id": "asm", "item": {"asm": True, "kernel": "(teddy)"}, "model": {}, "msg": "asmsym did not produce results: " + p.stderr[-400:], "source": "asmsym", "pc": "true"})
+    finally:
+        os.unlink(out)
+    for r in res:
+        kernels.append({k: r[k] for k in r if k != "mnemonics"})
+        tot["paths"] += r.get("paths", 0)
+        tot["queries"] += r.get("queries", 0)
+        tot["loads"] += r.get("loads_checked", 0)
+        tot["solver_s"] += r.get("solver_s", 0.0)
+        if r.get("violations"):
+            vios.append({"id": "asm|%s" % r["kernel"], "item": {"asm": True, "kernel": r["kernel"], "Lmax": lmax}, "model": {},
+                         "msg": "C16 assembly kernel %s: %s" % (r["kernel"], r["violations"][0]), "snaps": {"kind": r.get("kind")}, "source": "asmsym", "pc": "true"})
+    info = {"engine": "asmsym (z3 Python API)", "Lmax": lmax, "kernels": kernels, "paths": tot["paths"], "queries": tot["queries"], "loads_proved_in_bounds": tot["loads"],
+            "solver_s": round(tot["solver_s"], 1), "inconclusive_kernels": [k["kernel"] for k in kernels if not k.get("ok") and not k.get("violations")],
+            "obligations": "teddySlimSSSE3_1/_2 and teddySlimAVX2_1/_2: for every mask table (264 symbolic bytes; AVX2: upper half of each 32-byte row assumed equal to the lower half, the documented layout), every content and every length 0..Lmax: (pos, bucketMask) == the scalar candidate definition (least i with i+fpLen <= len and non-zero AND of the nibble look-ups), every haystack/table load in bounds, no store outside the result slots",
+            "fat_teddy": "fatTeddyAVX2_2 is checked against a relational contract (no true candidate is skipped: pos <= first true candidate, mask contains the true buckets there, pos < len), not against equality with the scalar candidate function: the real kernel reports spurious candidates (e.g. at position 0), which the Go verification loop filters out; confirmed natively",
+            "not_covered": "fatTeddyAVX2_2Batch (writes a candidate buffer; not yet encoded)"}
+    return vios, info
+
+ASSUMPTIONS = [
+    "Go level: literal-set corpus L16; CPU vector flags are false in the symbolic run (pure-Go paths of Teddy, memchr/memmem wrappers, Aho-Corasick, digit scanner, wrappers, tracker)",
+    "assembly level: the four slim Teddy kernels for all mask tables and all lengths <= Lmax; the composition kernel + Go verification loop under real vector flags is not executed jointly (assume-guarantee: the kernels equal the scalar candidate function the Go-level check exercises); the batch variant of the Fat Teddy kernel is not covered",
+]
 
 # (literal set, kinds)
 L16 = [
